@@ -1,6 +1,7 @@
 import KrroodVerif.Sexp
 import KrroodVerif.Model.Eql
 import KrroodVerif.Model.EqlFindings
+import KrroodVerif.Model.EqlIRCheck
 import KrroodVerif.Drive.EqlParse
 namespace KrroodVerif.Drive.C02
 open KrroodVerif KrroodVerif.Eql KrroodVerif.Drive.EqlParse
@@ -19,8 +20,12 @@ def run (s : Sexp) : String :=
   | some (w, q) =>
     let m := evalQuery w q.toQuery
     let sp := solutions w q
+    -- second tie (c01b): `IR.runIR IR.irTable` must agree with `Eql.eval` on the raw result lists (else: broken check)
+    if let some why := IR.irDisagreement w q.toQuery then s!"error=model_ir differs from model ({why})" else
+    let mIR : Except Err (List (List Val)) := match IR.evalQueryIR IR.irTable w q.toQuery with
+      | .ok r => .ok r | .error (.err e) => .error e | .error (.stuck _) => .error .badOperand
     let trig := match q.cond.map build with
       | some e => ",".intercalate (if e.hasFlatten then ["F-C02-2"] else [])
       | none => ""
-    s!"model={showBag m} | {showThe m}\tspec={showBag sp} | {showThe sp}\ttrig={trig}"
+    s!"model={showBag m} | {showThe m}\tspec={showBag sp} | {showThe sp}\ttrig={trig}\tmodel_ir={showBag mIR} | {showThe mIR}"
 end KrroodVerif.Drive.C02
